@@ -5,65 +5,66 @@ From Chess3 Require Import Base.Bits Model.Types Model.BoardDef Model.Board Mode
 Import ListNotations.
 Open Scope N_scope.
 
-Lemma C03_move_l : forall z b m, Rep b -> applicable b m = true ->
-  let '(b', t) := make z b m in undo z b' m t = b.
+Lemma C03_move_l : forall l z b m, layout_ok l = true -> Rep b -> applicable b m = true ->
+  let '(b', t) := make_l l z b m in undo_l l z b' m t = b.
 Proof.
-  intros z b m HR HA. pose proof (undo_make z b m (Rep_RepW b HR) HA) as H.
-  destruct (make z b m) as [b' t]. exact H.
+  intros l z b m HL HR HA. pose proof (undo_make l z b m HL (Rep_RepW b HR) HA) as H.
+  destruct (make_l l z b m) as [b' t]. exact H.
 Qed.
 
-Lemma C03_null_l : forall z b, Rep b ->
-  let '(b', t) := make_null z b in undo_null b' t = b.
+Lemma C03_null_l : forall l z b, layout_ok l = true -> Rep b ->
+  let '(b', t) := make_null_l l z b in undo_null_l l b' t = b.
 Proof.
-  intros z b HR. pose proof (undo_null_make_null z b (Rep_RepW b HR)) as H.
-  destruct (make_null z b) as [b' t]. exact H.
+  intros l z b HL HR. pose proof (undo_null_make_null l z b HL (Rep_RepW b HR)) as H.
+  destruct (make_null_l l z b) as [b' t]. exact H.
 Qed.
 
-Lemma C03_pseudo_legal_move_l : forall z b m,
+Lemma C03_pseudo_legal_move_l : forall l z b m, layout_ok l = true ->
   Rep b -> ep_inv b = true -> castle_inv b = true -> is_pseudo_legal b m = true ->
-  let '(b', t) := make z b m in undo z b' m t = b.
+  let '(b', t) := make_l l z b m in undo_l l z b' m t = b.
 Proof.
-  intros z b m HR HE HC HI. apply C03_move_l; [exact HR|apply pseudo_legal_applicable; assumption].
+  intros l z b m HL HR HE HC HI. apply C03_move_l; [exact HL|exact HR|apply pseudo_legal_applicable; assumption].
 Qed.
 
-Lemma C03_nested_l : forall z ops b, Rep b -> applicable_all z b ops ->
-  let '(b', st) := make_all z b ops [] in undo_all z b' st = b.
+Lemma C03_nested_l : forall l z ops b, layout_ok l = true -> Rep b -> applicable_all l z b ops ->
+  let '(b', st) := make_all l z b ops [] in undo_all l z b' st = b.
 Proof.
-  intros z ops b HR HA. pose proof (undo_all_make_all z ops b [] (Rep_RepW b HR) HA) as H.
-  destruct (make_all z b ops []) as [b' st]. exact H.
+  intros l z ops b HL HR HA. pose proof (undo_all_make_all l z HL ops b [] (Rep_RepW b HR) HA) as H.
+  destruct (make_all l z b ops []) as [b' st]. exact H.
 Qed.
 
-Lemma C03_walk_l : forall z evs b, Rep b -> walk_ok z b [] evs ->
-  let '(b', st) := walk z b [] evs in undo_all z b' st = b.
+Lemma C03_walk_l : forall l z evs b, layout_ok l = true -> Rep b -> walk_ok l z b [] evs ->
+  let '(b', st) := walk l z b [] evs in undo_all l z b' st = b.
 Proof.
-  intros z evs b HR HW. pose proof (walk_restores z evs b (Rep_RepW b HR) HW) as H.
-  destruct (walk z b [] evs) as [b' st]. exact H.
+  intros l z evs b HL HR HW. pose proof (walk_restores l z HL evs b (Rep_RepW b HR) HW) as H.
+  destruct (walk l z b [] evs) as [b' st]. exact H.
 Qed.
 
-Lemma C03_token_fields_l : forall r fc c e p,
+Lemma C03_token_fields_l : forall l r fc c e p, layout_ok l = true ->
   (-32768 <= fc < 32768)%Z -> c < 16 -> e < 64 -> p < 8 ->
-  let t := tok_set_ep (tok_set_capture (tok_set_castling (tok_set_fifty r fc) c) p) e in
-  tok_fifty t = fc /\ tok_castling t = c /\ tok_capture t = p /\ tok_ep t = e.
+  let t := tok_set_ep l (tok_set_capture l (tok_set_castling l (tok_set_fifty l r fc) c) p) e in
+  tok_fifty l t = fc /\ tok_castling l t = c /\ tok_capture l t = p /\ tok_ep l t = e.
 Proof.
-  intros r fc c e p Hf Hc He Hp. cbv zeta. repeat split.
-  - rewrite tok_fifty_set_ep, tok_fifty_set_capture, tok_fifty_set_castling by assumption.
-    apply tok_fifty_set_fifty. exact Hf.
-  - rewrite tok_castling_set_ep, tok_castling_set_capture by assumption. apply tok_castling_set_castling. exact Hc.
-  - rewrite tok_capture_set_ep by assumption. apply tok_capture_set_capture. exact Hp.
-  - apply tok_ep_set_ep. exact He.
+  intros l r fc c e p HL Hf Hc He Hp. cbv zeta. repeat split.
+  - rewrite (tok_fifty_set_ep l HL), (tok_fifty_set_capture l HL), (tok_fifty_set_castling l HL) by assumption.
+    apply (tok_fifty_set_fifty l HL). exact Hf.
+  - rewrite (tok_castling_set_ep l HL), (tok_castling_set_capture l HL) by assumption.
+    apply (tok_castling_set_castling l HL). exact Hc.
+  - rewrite (tok_capture_set_ep l HL) by assumption. apply (tok_capture_set_capture l HL). exact Hp.
+  - apply (tok_ep_set_ep l HL). exact He.
 Qed.
 
-Lemma C04_inv_l : forall z ops b0, Rep b0 -> cur_hash b0 = calc_hash z b0 -> applicable_all z b0 ops ->
-  let b := run z b0 ops in RepW b /\ cur_hash b = calc_hash z b.
+Lemma C04_inv_l : forall l z ops b0, Rep b0 -> cur_hash b0 = calc_hash z b0 -> applicable_all l z b0 ops ->
+  let b := run l z b0 ops in RepW b /\ cur_hash b = calc_hash z b.
 Proof.
-  intros z ops b0 HR HO HA. exact (run_hash_ok z ops b0 (Rep_RepW b0 HR) HO HA).
+  intros l z ops b0 HR HO HA. exact (run_hash_ok l z ops b0 (Rep_RepW b0 HR) HO HA).
 Qed.
 
-Lemma C04_inv_Rep_l : forall z ops b0, zob_w64 z -> Rep b0 -> cur_hash b0 = calc_hash z b0 -> applicable_all z b0 ops ->
-  let b := run z b0 ops in Rep b /\ cur_hash b = calc_hash z b.
+Lemma C04_inv_Rep_l : forall l z ops b0, zob_w64 z -> Rep b0 -> cur_hash b0 = calc_hash z b0 -> applicable_all l z b0 ops ->
+  let b := run l z b0 ops in Rep b /\ cur_hash b = calc_hash z b.
 Proof.
-  intros z ops b0 Z HR HO HA. split; [apply run_Rep; assumption|].
-  apply (run_hash_ok z ops b0 (Rep_RepW b0 HR) HO HA).
+  intros l z ops b0 Z HR HO HA. split; [apply run_Rep; assumption|].
+  apply (run_hash_ok l z ops b0 (Rep_RepW b0 HR) HO HA).
 Qed.
 
 Lemma C04_one_placement_l : forall b, RepW b ->
@@ -75,11 +76,11 @@ Proof.
   intros b H. apply RepP_words. apply (rw_p b H).
 Qed.
 
-Lemma C04_walk_l : forall z evs b0, Rep b0 -> cur_hash b0 = calc_hash z b0 -> walk_ok z b0 [] evs ->
-  let b := fst (walk z b0 [] evs) in RepW b /\ cur_hash b = calc_hash z b.
+Lemma C04_walk_l : forall l z evs b0, layout_ok l = true -> Rep b0 -> cur_hash b0 = calc_hash z b0 -> walk_ok l z b0 [] evs ->
+  let b := fst (walk l z b0 [] evs) in RepW b /\ cur_hash b = calc_hash z b.
 Proof.
-  intros z evs b0 HR HO HW.
-  exact (walk_hash_ok z evs b0 [] (Rep_RepW b0 HR) HO (soh_nil z b0) HW).
+  intros l z evs b0 HL HR HO HW.
+  exact (walk_hash_ok l z HL evs b0 [] (Rep_RepW b0 HR) HO (soh_nil l z b0) HW).
 Qed.
 
 Lemma C04_reset_l : forall z b, Rep b ->
@@ -90,9 +91,9 @@ Proof.
   intros Z. apply reset_hash_Rep; [exact Z|apply Rep_RepW; exact HR].
 Qed.
 
-Lemma C04_transposition_l : forall z ops1 ops2 b0, Rep b0 -> cur_hash b0 = calc_hash z b0 ->
-  applicable_all z b0 ops1 -> applicable_all z b0 ops2 ->
-  hkey (run z b0 ops1) = hkey (run z b0 ops2) -> cur_hash (run z b0 ops1) = cur_hash (run z b0 ops2).
+Lemma C04_transposition_l : forall l z ops1 ops2 b0, Rep b0 -> cur_hash b0 = calc_hash z b0 ->
+  applicable_all l z b0 ops1 -> applicable_all l z b0 ops2 ->
+  hkey (run l z b0 ops1) = hkey (run l z b0 ops2) -> cur_hash (run l z b0 ops1) = cur_hash (run l z b0 ops2).
 Proof.
-  intros z ops1 ops2 b0 HR. exact (transposition z ops1 ops2 b0 (Rep_RepW b0 HR)).
+  intros l z ops1 ops2 b0 HR. exact (transposition l z ops1 ops2 b0 (Rep_RepW b0 HR)).
 Qed.
